@@ -353,6 +353,10 @@ func runC05MCQ(c *c05Case) (v *vcommon.Violation, nontrivial, inconclusive bool)
 		if _, err := m.emb.NewDMap(freshName("c05n-")); errClass(err) != "clusterquorum" {
 			return bad("newdmap-below-quorum", "member %s below the quorum: NewDMap returned %v, want ErrClusterQuorum", m.name, err), nontrivial, false
 		}
+		// "every attempt to open a DMap": also one this member has opened and served before
+		if _, err := m.emb.NewDMap(name); errClass(err) != "clusterquorum" {
+			return bad("reopen-below-quorum", "member %s below the quorum: NewDMap of the DMap it opened earlier returned %v, want ErrClusterQuorum", m.name, err), nontrivial, false
+		}
 	}
 	if after := snapshot(); after != before {
 		return bad("applied-below-quorum", "the stored keys changed while the members were below the quorum:\nbefore %s\nafter  %s", before, after), nontrivial, false
